@@ -144,11 +144,11 @@ pub fn run(run: &mut Run) -> Finish {
     let tier = run.ctx.tier;
 
     // slice 1: exhaustive value window
-    let lim: i64 = tier.pick(1 << 22, (1i64 << 32) - 1);
+    let lim: i64 = tier.pick(1 << 25, (1i64 << 32) - 1);
     let total_vals = (2 * lim + 1) as u64;
     const BLOCK: u64 = 1 << 14;
     let blocks = total_vals.div_ceil(BLOCK);
-    run.par_slice("values: every integer in [-L, L] (L = 2^22 quick, 2^32-1 thorough), one-element lists", 1, blocks, |idx, l| {
+    run.par_slice("values: every integer in [-L, L] (L = 2^25 quick, 2^32-1 thorough), one-element lists", 1, blocks, |idx, l| {
         let b = idx & ((1 << 40) - 1);
         let lo = b * BLOCK;
         let hi = ((b + 1) * BLOCK).min(total_vals);
